@@ -272,3 +272,66 @@ func specialKinds() []*gen.Kind {
 	}
 	return specialKindsCache
 }
+
+// Messages whose LAST field is a very long string (sizes around the thresholds a string
+// reader may switch strategy at: 64 KiB, 1 MiB, 3 MiB): every cut inside that string must be
+// rejected as well. Cuts are sampled - the head, the tail, around the thresholds, random.
+func TestC07LongTailStrings(t *testing.T) {
+	st := stats.G()
+	rapid.Check(t, func(rt *rapid.T) {
+		size := rapid.SampledFrom([]int{65535, 65536, 65537, 1<<20 - 1, 1 << 20, 1<<20 + 1, 3<<20 + 123}).Draw(rt, "tail-size")
+		tail := string(gen.Expand(rapid.Uint64().Draw(rt, "tail-seed"), size))
+		name := rapid.SampledFrom([]string{"TableColumns", "ClientHello", "Exception", "Setting"}).Draw(rt, "message")
+		rev := 54460
+		e := &ref.Enc{NoMap: true}
+		switch name {
+		case "TableColumns":
+			ref.EncodeTableColumns(e, ref.TableColumns{First: "t", Second: tail})
+		case "ClientHello":
+			ref.EncodeClientHello(e, ref.ClientHello{Name: "n", Major: 1, Minor: 2, Revision: int64(rev), Database: "d", User: "u", Pass: tail})
+			e.B = e.B[1:] // Decode expects the body
+		case "Exception":
+			ref.EncodeException(e, ref.Exception{Code: 1, Name: "n", Message: "m", Stack: tail})
+		case "Setting":
+			e.Str([]byte("key"), ref.RPayload)
+			e.UVarint(1, ref.RCount)
+			e.Str([]byte(tail), ref.RPayload)
+		}
+		data := e.B
+		dec := func(b []byte) error {
+			r := readerOf(b)
+			return safely(func() error { return decodeMessage(name, r, rev) })
+		}
+		if err := dec(data); err != nil {
+			rt.Fatalf("harness: %s with a %d-byte tail does not decode: %v", name, size, err)
+		}
+		n := len(data)
+		cuts := map[int]bool{}
+		for i := 1; i <= 40; i++ {
+			cuts[n-i] = true
+			cuts[n-size+i] = true
+		}
+		for _, th := range []int{4096, 65536, 131072, 1 << 20, 2 << 20} {
+			for d := -2; d <= 2; d++ {
+				if p := n - size + th + d; p > 0 && p < n {
+					cuts[p] = true
+				}
+			}
+		}
+		for i := 0; i < 60; i++ {
+			cuts[rapid.IntRange(1, n-1).Draw(rt, "cut")] = true
+		}
+		for k := range cuts {
+			if k <= 0 || k >= n {
+				continue
+			}
+			if err := dec(data[:k]); err == nil || isPanic(err) {
+				rt.Fatalf("%s whose last field is a %d-byte string: decoding the first %d of %d bytes returned %v", name, size, k, n, err)
+			}
+		}
+		st.Enumerated(int64(len(cuts)), int64(len(cuts)))
+		st.Case(stats.Hash("c07tail", name, size, data[:64]), true, func() any {
+			return map[string]any{"kind": "long-tail-string-cuts", "message": name, "tail_bytes": size, "cuts": len(cuts)}
+		})
+	})
+}
